@@ -80,7 +80,11 @@ func (p *Proxy) GetAttr(name string) (Object, bool) {
 		}
 		var value reflect.Value
 		if p.typ.IsPointerType() {
-			value = reflect.ValueOf(p.obj).Elem().FieldByName(name)
+			ptr := reflect.ValueOf(p.obj)
+			if ptr.IsNil() {
+				return TypeErrorf("type error: cannot get field %s of a nil %s", name, p.typ.Name()), true
+			}
+			value = ptr.Elem().FieldByName(name)
 		} else {
 			value = reflect.ValueOf(p.obj).FieldByName(name)
 		}
@@ -121,7 +125,11 @@ func (p *Proxy) SetAttr(name string, value Object) error {
 
 		var field reflect.Value
 		if p.typ.IsPointerType() {
-			field = reflect.ValueOf(p.obj).Elem().FieldByName(name)
+			ptr := reflect.ValueOf(p.obj)
+			if ptr.IsNil() {
+				return errz.TypeErrorf("type error: cannot set field %s of a nil %s", name, p.typ.Name())
+			}
+			field = ptr.Elem().FieldByName(name)
 		} else {
 			field = reflect.ValueOf(p.obj).FieldByName(name)
 		}
